@@ -4,7 +4,7 @@ from vlib import Case, Stream, BUILD, VERIF, model_cmd
 import c12coll as coll
 
 ID = "C12"
-LEAN_MODULES = ["HgVerif.Props.C12"] + list(coll.LEAN_MODULES)
+LEAN_MODULES = ["HgVerif.Props.C12", "HgVerif.Props.C12Sample"] + list(coll.LEAN_MODULES)
 THEOREMS = [
     "HgVerif.Switch.inv_reachable",
     "HgVerif.Switch.switch_old_dead",
@@ -19,17 +19,33 @@ THEOREMS = [
     "HgVerif.Switch.segment_follows_branch",
     "HgVerif.Switch.switch_follows_selected",
     "HgVerif.Switch.follows_selected_unique",
+    "HgVerif.Switch.sampledStart_iff",
+    "HgVerif.Switch.notified_iff",
+    "HgVerif.Switch.sampled_view",
+    "HgVerif.Switch.activation_evaluates",
+    "HgVerif.Switch.activation_gate_blocks",
+    "HgVerif.Switch.activation_silent",
+    "HgVerif.Switch.selection_cycle_evaluates",
+    "HgVerif.Switch.selection_cycle_silent",
+    "HgVerif.Switch.first_binding_rule_under_approximates",
+    "HgVerif.Switch.first_binding_rule_refuted",
 ] + list(coll.THEOREMS)
 CXX_TARGETS = ["hgv_switch"] + list(coll.CXX_TARGETS)
-RULE = ("key/input histories replayed into a REAL graph replay(key: TS<int>|TS<str>), replay(x)[, replay(y)] -> "
-        "switch_({k: branch, ...}[, default][.reload()], x[, y]) -> record with 0, 1 or 2 time-series arguments; branches "
-        "from a vocabulary of 11 (stateless, stateful sum, key-consuming, self-scheduling NodeScheduler timers incl. a "
-        "start-hook source, two-input, unchecked-validity, a two-node sub-graph); a case is non-trivial when it performs "
+RULE = ("key/input histories replayed into a REAL graph replay(key: TS<int>|TS<str>), replay(x)[, replay(y)[, replay(z)]] -> "
+        "switch_({k: branch, ...}[, default][.reload()], x[, y[, z]]) -> record with 0-3 time-series arguments; branches "
+        "from a vocabulary of 26 (stateless, stateful sum, key-consuming, self-scheduling NodeScheduler timers incl. a "
+        "start-hook source, two-input, unchecked-validity, a two-node sub-graph, and 15 single nodes bound to 1-3 boundary "
+        "inputs (key and/or time-series arguments) with an activity / validity policy PER BINDING: passive first + active "
+        "later, optional-unset first + required later, active first + passive later, all passive, all unchecked with a "
+        "passive first, only the middle / only the last of three active); scenarios incl. held inputs that became valid "
+        "before the selection and are silent in the selection cycle and an input that never ticks; a case is non-trivial when it performs "
         ">= 3 activations (the A/B slot reuse path) with at least one output tick, or fails on an unmatched key after an "
         "activation; distinct by sha1 of the case body" + " " + coll.RULE)
 TRUSTED = ["replay/record nodes, target links and the child graph's own node scheduling are taken as given (C01-C03, C13, C20)",
            "harness branch nodes carry a state object whose constructor/destructor log; instance identity = ordinal of the start event"] + list(coll.TRUSTED)
-ASSUMPTIONS = ["every bound branch input is active (passive held inputs stay silent by design; pinned by the repo's own test)",
+ASSUMPTIONS = ["a branch is one node bound to 0-3 boundary inputs (key and/or time-series arguments), each binding active or "
+               "passive, required or optional; a passive input never schedules the node and is not sampled at selection "
+               "(by design; pinned by the repo's own test), its value is readable",
                "ordinary output path (TS<int> result written into the switch-owned output; REF-shaped / forwarding-terminal "
                "branches use the same slot protocol and are not exercised)",
                "the engine evaluates the switch node exactly when its schedule entry equals the cycle time (C02)",
@@ -46,13 +62,21 @@ LEVEL_TEXT = ("Kernel-checked for ARBITRARY branch behaviours (any state type, a
               "branch whatever happened before; an unmatched key without default is exactly the error case and kills the run; "
               "the recorded output stream equals the concatenation over maximal constant-selection segments of the selected "
               "branch run alone from its start state with the valid held inputs sampled in the first cycle (child wake-ups are "
-              "never lost or duplicated by the parent's single schedule entry). The executable model is compared line by line "
+              "never lost or duplicated by the parent's single schedule entry); the sampled start is per BINDING: for a node with "
+              "any number of bindings and any mix of active/passive and required/optional inputs, the new instance evaluates "
+              "in the selection cycle iff SOME binding has an active target with a valid source (or the gate is explicitly "
+              "empty) and the validity gate passes, seeing the current value of every valid held input (the rule 'the first "
+              "binding decides' has a kernel-checked counter-witness). The executable model is compared line by line "
               "with the real runtime on generated histories." + " " + coll.LEVEL_TEXT)
 LEVEL_NOTE = ("Trusted: Lean kernel + standard axioms; the hand-written model (tied by correspondence); the Python reference "
               "monitor. The child graph is a Mealy machine: its internal node scheduling, target-link sampling of nested "
               "collections and the REF/forwarding output paths are observed through traces only.")
 
-VOC = {0: ["beat", "keyonly"], 1: ["inc", "sum", "keyadd", "timer", "dbl1"], 2: ["add2", "keyadd2", "sum2", "timer2"]}
+VOC = {0: ["beat", "keyonly"], 1: ["inc", "sum", "keyadd", "timer", "dbl1", "pecho", "kpx", "kxp"],
+       2: ["add2", "keyadd2", "sum2", "timer2", "gadd", "gaddr", "pp2", "orelse", "orelser", "uap2", "usum2p", "kgadd", "kmid"],
+       3: ["add3", "g3", "g3l"]}
+# one node bound to several boundary inputs with a policy per position
+MIXED = ["pecho", "kpx", "kxp", "gadd", "gaddr", "pp2", "orelse", "orelser", "uap2", "usum2p", "kgadd", "kmid", "g3", "g3l"]
 NIN_OF = {b: n for n, bs in VOC.items() for b in bs}
 KEYPOOL = [1, 2, 3, 5, -4, 10, 0, 7]
 
@@ -64,29 +88,38 @@ def _val(rng):
 
 
 def gen_case(rng, idx, tier):
-    nin = rng.choice([0, 1, 1, 1, 1, 2, 2, 2])
+    nin = rng.choice([0, 1, 1, 1, 1, 2, 2, 2, 2, 2, 3, 3])
     ktype = rng.choice(["int", "str"])
     reload = 1 if rng.random() < 0.35 else 0
     nkeys = rng.choice([1, 2, 2, 3, 3, 4])
     keys = rng.sample(KEYPOOL, nkeys)
     voc = VOC[nin]
+    if nin >= 1 and rng.random() < 0.5:
+        voc = [b for b in voc if b in MIXED] + [voc[0]]          # mostly nodes with a policy per binding
     cases = [(k, rng.choice(voc)) for k in keys]
     dflt = rng.choice(voc) if rng.random() < 0.3 else "-"
     cfg = "cfg %s %d %s %d %s" % (ktype, reload, dflt, nin, " ".join("%d=%s" % kb for kb in cases))
     stray = [k for k in KEYPOOL + [99, -1] if k not in keys]
     ncyc = rng.randint(5, 16) if tier == "quick" else rng.randint(6, 40)
-    scenario = rng.choice(["rapid", "fliptick", "return", "retick", "keysfirst", "inputsfirst", "quiet", "mix", "mix", "unmatched"])
+    scenario = rng.choice(["rapid", "fliptick", "return", "retick", "keysfirst", "inputsfirst", "quiet", "mix", "mix", "unmatched",
+                           "held", "held"])
+    # an optional input that never ticks at all
+    never = rng.choice((["x", "x", "y", "z"])[:nin + 1]) if nin >= 2 and rng.random() < 0.4 else None
     lines = []
     cur = None
 
-    def cyc(k=None, x=None, y=None):
+    def cyc(k=None, x=None, y=None, z=None):
         w = ["c"]
         if k is not None:
             w += ["k", str(k)]
-        if x is not None and nin >= 1:
+        if x is not None and nin >= 1 and never != "x":
             w += ["x", str(x)]
-        if y is not None and nin >= 2:
+        if y is not None and nin >= 2 and never != "y":
             w += ["y", str(y)]
+        if z is None and nin >= 3 and y is not None and rng.random() < 0.5:
+            z = _val(rng)
+        if z is not None and nin >= 3 and never != "z":
+            w += ["z", str(z)]
         lines.append(" ".join(w))
 
     def maybe(p):
@@ -97,7 +130,11 @@ def gen_case(rng, idx, tier):
         return rng.choice(c) if c else keys[0]
 
     # prologue: inputs valid before the first key, or not
-    if scenario == "inputsfirst" or (scenario not in ("keysfirst",) and rng.random() < 0.5):
+    if scenario == "held":
+        # the held inputs become valid (in separate cycles) before any selection
+        cyc(None, _val(rng), None)
+        cyc(None, None, _val(rng), _val(rng))
+    elif scenario == "inputsfirst" or (scenario not in ("keysfirst",) and rng.random() < 0.5):
         cyc(None, _val(rng), maybe(0.7))
         if rng.random() < 0.3:
             cyc(None, maybe(0.5), _val(rng))
@@ -144,6 +181,15 @@ def gen_case(rng, idx, tier):
                 cyc()                                    # nothing ticks: only timers can run
             else:
                 cyc(None, maybe(0.9), maybe(0.5))
+        elif scenario == "held":
+            # selections in cycles in which no held input ticks; input ticks in between
+            if cur is None or r < 0.45:
+                cur = other_key() if r < 0.35 or cur is None else cur
+                lines.append("c k %d" % cur)
+            elif r < 0.6:
+                cyc()
+            else:
+                cyc(None, maybe(0.5), maybe(0.5))
         elif scenario == "unmatched":
             if cur is None or r < 0.3:
                 cur = other_key()
@@ -176,7 +222,8 @@ def exhaustive_small(tier):
         return []
     import itertools
     cases, idx = [], 800000
-    for cfg in ("cfg int 0 - 1 1=sum 2=timer", "cfg int 1 - 1 1=sum 2=timer", "cfg str 0 inc 1 1=sum 2=keyadd"):
+    for cfg in ("cfg int 0 - 1 1=sum 2=timer", "cfg int 1 - 1 1=sum 2=timer", "cfg str 0 inc 1 1=sum 2=keyadd",
+                "cfg int 1 - 1 1=kpx 2=pecho"):
         for L in range(1, 6):
             for seq in itertools.product(range(8), repeat=L):
                 lines = []
@@ -204,23 +251,31 @@ def streams(rng, tier, seed):
 # ------------------------------------------------------------------ the reference: plain-Python branch functions
 
 class _Ref:
-    """One fresh stand-alone instance of a branch function.  `binds` names the inputs it reads; `unchecked`
-    branches run with invalid inputs too."""
-    binds, unchecked = (), False
+    """One fresh stand-alone instance of a branch function: ONE node bound to the inputs `binds` (in this order), each
+    binding with its own policy: `passive` inputs never schedule the node, `optional` inputs need not be valid;
+    `unchecked` = every input is optional (the node runs with invalid inputs too and is sampled without a valid one)."""
+    binds, unchecked, passive, optional = (), False, (), ()
 
     def __init__(self, now):
         self.wake = None
         self.first = True
 
+    def sampled(self, val):
+        """selected just now: is there SOME binding whose input is active and whose held source is valid"""
+        return any(p not in self.passive and (val[p] is not None or self.unchecked) for p in self.binds)
+
     def cycle(self, now, val, tick):
-        """val/tick: dicts over 'k','x','y' (current value or None, ticked this cycle).  -> output tick or None"""
+        """val/tick: dicts over 'k','x','y','z' (current value or None, ticked this cycle).  -> output tick or None"""
         t = {p: (tick[p] or (self.first and val[p] is not None)) for p in self.binds}
-        due = any(t.values()) or (self.first and self.unchecked and len(self.binds) > 0)
+        if self.first:
+            due = self.sampled(val)
+        else:
+            due = any(tick[p] for p in self.binds if p not in self.passive)
         woken = self.wake == now
         self.first = False
         if not (due or woken):
             return None
-        if not self.unchecked and any(val[p] is None for p in self.binds):
+        if not self.unchecked and any(val[p] is None for p in self.binds if p not in self.optional):
             if woken:
                 self.wake = None
             return None
@@ -318,8 +373,36 @@ class _Beat(_Ref):
         return 100 + self.k
 
 
+def _q(v):
+    return -1 if v is None else v
+
+
+def _mixed(name, binds, passive, optional, f, unchecked=False):
+    return type("_M_" + name, (_Ref,), {"binds": binds, "passive": passive, "optional": optional, "unchecked": unchecked,
+                                        "step": lambda self, now, v, t, woken: f(v)})
+
+
+_MIX = {
+    "pecho": _mixed("pecho", ("x",), ("x",), (), lambda v: v["x"]),
+    "kpx": _mixed("kpx", ("k", "x"), ("k",), (), lambda v: 1000 * v["k"] + v["x"]),
+    "kxp": _mixed("kxp", ("k", "x"), ("x",), (), lambda v: 1000 * v["k"] + v["x"]),
+    "gadd": _mixed("gadd", ("x", "y"), ("x",), (), lambda v: 100 * v["x"] + v["y"]),
+    "gaddr": _mixed("gaddr", ("x", "y"), ("y",), (), lambda v: 100 * v["x"] + v["y"]),
+    "pp2": _mixed("pp2", ("x", "y"), ("x", "y"), (), lambda v: 100 * v["x"] + v["y"]),
+    "orelse": _mixed("orelse", ("x", "y"), (), ("x",), lambda v: 100 * _q(v["x"]) + v["y"]),
+    "orelser": _mixed("orelser", ("x", "y"), (), ("y",), lambda v: 100 * v["x"] + _q(v["y"])),
+    "uap2": _mixed("uap2", ("x", "y"), ("y",), ("x",), lambda v: 100 * _q(v["x"]) + v["y"]),
+    "usum2p": _mixed("usum2p", ("x", "y"), ("x",), ("x", "y"), lambda v: 100 * _q(v["x"]) + _q(v["y"]), unchecked=True),
+    "kgadd": _mixed("kgadd", ("k", "x", "y"), ("k", "x"), (), lambda v: 10000 * v["k"] + 100 * v["x"] + v["y"]),
+    "kmid": _mixed("kmid", ("k", "x", "y"), ("k", "y"), (), lambda v: 10000 * v["k"] + 100 * v["x"] + v["y"]),
+    "add3": _mixed("add3", ("x", "y", "z"), (), (), lambda v: v["x"] + v["y"] + v["z"]),
+    "g3": _mixed("g3", ("x", "y", "z"), ("x",), ("y",), lambda v: 10000 * v["x"] + 100 * _q(v["y"]) + v["z"]),
+    "g3l": _mixed("g3l", ("x", "y", "z"), ("x", "y"), (), lambda v: 10000 * v["x"] + 100 * v["y"] + v["z"]),
+}
+
 REF = {"inc": _Inc, "dbl1": _Dbl1, "sum": _Sum, "keyadd": _KeyAdd, "keyonly": _KeyOnly, "add2": _Add2, "keyadd2": _KeyAdd2,
        "sum2": _Sum2, "timer": _Timer, "timer2": _Timer2, "beat": _Beat}
+REF.update(_MIX)
 
 
 def _fields(line):
@@ -332,7 +415,7 @@ def _fields(line):
 
 
 def _parse_cfg(w):
-    if len(w) < 5 or w[1] not in ("int", "str") or w[2] not in ("0", "1") or w[4] not in ("0", "1", "2"):
+    if len(w) < 5 or w[1] not in ("int", "str") or w[2] not in ("0", "1") or w[4] not in ("0", "1", "2", "3"):
         return None
     nin = int(w[4])
     table = []
@@ -364,7 +447,7 @@ def _spec(case, out):
     st = None
 
     def reset():
-        return {"val": {"k": None, "x": None, "y": None}, "cur": None, "ref": None, "branch": None, "now": 1, "dead": False,
+        return {"val": {"k": None, "x": None, "y": None, "z": None}, "cur": None, "ref": None, "branch": None, "now": 1, "dead": False,
                 "running": None, "stopped": set(), "live": set(), "acts": 0, "ticks": 0, "seen_keys": [], "nact_inst": 0,
                 "err": False, "prev_switch": None}
 
@@ -405,7 +488,7 @@ def _spec(case, out):
         # ---- one cycle
         now = st["now"]
         st["now"] += 1
-        tick = {"k": False, "x": False, "y": False}
+        tick = {"k": False, "x": False, "y": False, "z": False}
         i = 1
         while i + 1 < len(w):
             p = w[i]
@@ -418,7 +501,7 @@ def _spec(case, out):
                 bad.append("[C12-unmatched] cycle %d: the run failed earlier but the driver reports %r" % (now - 1, o))
             continue
         val = st["val"]
-        if tick["x"] or tick["y"]:
+        if tick["x"] or tick["y"] or tick["z"]:
             feats.add("inputs-before-first-key" if st["cur"] is None and not tick["k"] else "input-tick")
         # does the key select a new instance?
         switch = False
@@ -451,7 +534,7 @@ def _spec(case, out):
                     feats.add("same-key-retick(reload)")
                 elif k in st["seen_keys"]:
                     feats.add("return-to-earlier-key")
-                if tick["x"] or tick["y"]:
+                if tick["x"] or tick["y"] or tick["z"]:
                     feats.add("flip-in-input-tick-cycle")
                 if st["ref"] is not None and st["ref"].wake is not None and st["ref"].wake > now:
                     feats.add("switch-away-with-timer-pending")
@@ -461,6 +544,30 @@ def _spec(case, out):
                 feats.add("key-before-inputs-valid")
             elif any(val[p] is not None and not tick[p] for p in REF[branch].binds if p != "k"):
                 feats.add("held-input-sampled-at-activation")
+            rb = REF[branch]
+            if len(rb.binds) >= 2:
+                # per-binding sampled start: which bindings can be sampled right now
+                okb = [p not in rb.passive and (val[p] is not None or rb.unchecked) for p in rb.binds]
+                feats.add("multi-binding-node:%d" % len(rb.binds))
+                if any(okb) and not okb[0]:
+                    why = "passive" if rb.binds[0] in rb.passive else "optional-and-unset" if rb.binds[0] in rb.optional else "unset"
+                    feats.add("sampled-start:first-binding-%s,later-binding-sampled" % why)
+                    if st["cur"] is None:
+                        feats.add("sampled-start(later binding):first-activation")
+                    elif k == st["cur"]:
+                        feats.add("sampled-start(later binding):reload")
+                    elif k in st["seen_keys"]:
+                        feats.add("sampled-start(later binding):return-to-earlier-key")
+                    if tick["x"] or tick["y"] or tick["z"]:
+                        feats.add("sampled-start(later binding):flip-in-input-tick-cycle")
+                    else:
+                        feats.add("sampled-start(later binding):held-inputs-silent-in-selection-cycle")
+                elif any(okb):
+                    feats.add("sampled-start:first-binding-sampled")
+                else:
+                    feats.add("sampled-start:no-binding-sampled")
+            if any(val[p] is None and not tick[p] for p in rb.binds if p in rb.optional):
+                feats.add("optional-input-unset-at-selection")
             st["cur"], st["ref"], st["branch"] = k, REF[branch](now), branch
             st["seen_keys"].append(k)
             st["acts"] += 1
@@ -493,7 +600,12 @@ def _spec(case, out):
         want = "-" if exp is None else str(exp)
         if lenient and rec == "-":
             want, exp = "-", None
-        if rec != want:
+        if rec != want and switch and rec == "-":
+            bad.append("[C12-sampled] the newly selected branch does not evaluate in the selection cycle: cycle %d: nothing "
+                       "recorded, but branch %s (key %s) selected now sees the held inputs %s and run alone gives %s"
+                       % (now - 1, st["branch"], st["cur"],
+                          {p: val[p] for p in REF[st["branch"]].binds}, want))
+        elif rec != want:
             bad.append("[C12-follows] cycle %d: recorded %s, the selected branch %s (key %s) run alone from a fresh state "
                        "gives %s" % (now - 1, rec, st["branch"], st["cur"], want))
         if exp is not None:
